@@ -34,6 +34,11 @@ pub struct Case {
 pub struct C16;
 
 fn addr(id: u8, variant: u8) -> SocketAddr {
+    // variants 0 and 1 are addresses of the id's own; 2 and 3 come from a pool every id may use (a node that
+    // restarts under a new id on the old address, two nodes swapping addresses)
+    if variant >= 2 {
+        return ([10, 1, 9, variant], 7000).into();
+    }
     ([10, 1, variant, id], 7000).into()
 }
 
@@ -71,16 +76,18 @@ impl Prop for C16 {
                 let id = 2 + src.below(5) as u8;
                 match src.weighted(&[4, 3, 1]) {
                     0 => {
-                        cur.entry(id).or_insert(0);
+                        let v = *src.pick(&[0u8, 0, 0, 0, 1, 2, 2, 3]);
+                        cur.entry(id).or_insert(v);
                     },
                     1 => {
                         cur.remove(&id);
                     },
                     _ => {
+                        let to = *src.pick(&[0u8, 1, 2, 2, 3]);
                         if let Some(v) = cur.get_mut(&id) {
-                            *v ^= 1;
+                            *v = if *v == to { (to + 1) % 4 } else { to };
                         } else {
-                            cur.insert(id, 1);
+                            cur.insert(id, to);
                         }
                     },
                 }
@@ -110,7 +117,7 @@ impl Prop for C16 {
 
     fn rule(&self) -> &'static str {
         "one real DatacakeNode (id 1); 1-10 membership snapshots over ids 2-6 (joins, leaves, rejoins, address \
-         changes) published where chitchat would publish them (hook H-members), some back to back so the node's own \
+         changes, addresses of an id's own or from a pool of two that several ids may hold at once or one after the other) published where chitchat would publish them (hook H-members), some back to back so the node's own \
          publisher skips one; a component subscribes via membership_changes() at a generated moment and reads after a \
          generated subset of the snapshots, always reading once more at the end; it applies each change like the \
          replication services do (remove `left` ids, then insert `joined`); oracle 1: each delta it is handed equals \
@@ -323,5 +330,5 @@ async fn run(case: &Case) -> Outcome {
 }
 
 pub fn parts() -> Vec<Box<dyn DynPart>> {
-    vec![Box::new(Gen::new(C16, 20_000, 1_000_000))]
+    vec![Box::new(Gen::new(C16, 200_000, 5_000_000))]
 }
